@@ -269,8 +269,11 @@ def gen_sv_case(rng):
     elif r < 0.25 and t:
         i = rng.randrange(len(t))
         t[i] = (t[i][0], rng.choice([0x9fffffff, 0xa0000000, 0xffffffff, 0x10000000]), t[i][2], t[i][3])
-    if t and rng.random() < 0.2:
-        i = rng.randrange(len(t))          # a marker name inside an in-memory table (find_sym hides it)
+    if len(t) > 1 and rng.random() < 0.2:
+        # a marker name inside an in-memory table (find_sym hides it); never the first entry:
+        # a marker line before any symbol followed by the same (addr,type) makes the loader
+        # touch sym[-1] (see the assumptions)
+        i = rng.randrange(1, len(t))
         t[i] = (t[i][0], t[i][1], t[i][2], rng.choice(SYMEND))
     addrs = set()
     for s in t:
